@@ -118,13 +118,14 @@ type AsrtObs struct {
 }
 
 type BuildObs struct {
-	Lat      []LatObs          `json:"lat,omitempty"`  // lattice case only
-	Asrt     []AsrtObs         `json:"asrt,omitempty"` // lattice case only
-	Oks      []bool            `json:"oks"`
-	Errs     []string          `json:"errs,omitempty"`
-	Compiled bool              `json:"compiled"`
-	Infer    map[string]string `json:"infer,omitempty"` // passthrough node -> type name ("" = nil)
-	Runs     []RunObs          `json:"runs,omitempty"`
+	Lat          []LatObs          `json:"lat,omitempty"`  // lattice case only
+	Asrt         []AsrtObs         `json:"asrt,omitempty"` // lattice case only
+	Oks          []bool            `json:"oks"`
+	Errs         []string          `json:"errs,omitempty"`
+	Compiled     bool              `json:"compiled"`
+	SharedBranch bool              `json:"shared_branch,omitempty"` // one *GraphBranch value was handed to two AddBranch calls
+	Infer        map[string]string `json:"infer,omitempty"`         // passthrough node -> type name ("" = nil)
+	Runs         []RunObs          `json:"runs,omitempty"`
 }
 
 type runPlan struct {
@@ -249,6 +250,8 @@ func build(c *Case, plans []runPlan, extra bool) (bo BuildObs) {
 		bo.Errs = append(bo.Errs, "PANIC NewGraph: "+short(fmt.Sprint(p)))
 		return
 	}
+	brCache := map[string]*compose.GraphBranch{}
+	sharedBranch := false
 	var inv invoker
 	var cb *compileCB
 	lastCompiled := false
@@ -323,7 +326,17 @@ func build(c *Case, plans []runPlan, extra bool) (bo BuildObs) {
 				for _, e := range o.Choice {
 					choice = append(choice, keyName(e))
 				}
-				err = g.AddBranch(keyName(o.S), newBranch(o.Ty, choice, ends, o.Kind))
+				// one *GraphBranch value per (type, end nodes, choice, kind): an identical branch added to
+				// another start node (or twice) is the same builder value used again
+				bk := fmt.Sprintf("%s|%v|%v|%d", o.Ty, o.Ends, o.Choice, o.Kind)
+				br := brCache[bk]
+				if br == nil {
+					br = newBranch(o.Ty, choice, ends, o.Kind)
+					brCache[bk] = br
+				} else {
+					sharedBranch = true
+				}
+				err = g.AddBranch(keyName(o.S), br)
 			case "compile":
 				ncb := &compileCB{}
 				var ni invoker
@@ -347,6 +360,7 @@ func build(c *Case, plans []runPlan, extra bool) (bo BuildObs) {
 		lastCompiled = o.K == "compile" && err == nil
 	}
 	bo.Compiled = lastCompiled
+	bo.SharedBranch = sharedBranch
 	if !lastCompiled || inv == nil {
 		return
 	}
@@ -432,8 +446,21 @@ func build(c *Case, plans []runPlan, extra bool) (bo BuildObs) {
 			seenMu.Lock()
 			seenVals = nil
 			seenMu.Unlock()
+			// a run that has not returned after 10 s is given another 50 s before it counts as a hang: on a
+			// loaded machine slowness must not raise an alarm, a real deadlock still does
+			var r res
+			got := false
 			select {
-			case r := <-ch:
+			case r = <-ch:
+				got = true
+			case <-time.After(10 * time.Second):
+				select {
+				case r = <-ch:
+					got = true
+				case <-time.After(50 * time.Second):
+				}
+			}
+			if got {
 				class, msg = classify(r.p, r.err)
 				msg = short(msg)
 				if class == "ok" {
@@ -455,7 +482,7 @@ func build(c *Case, plans []runPlan, extra bool) (bo BuildObs) {
 					}
 				}
 				seenMu.Unlock()
-			case <-time.After(10 * time.Second):
+			} else {
 				class = "hang"
 			}
 			return
@@ -1113,6 +1140,9 @@ func (engine) Run(ci any) lib.Result {
 	}
 	if zeroEnd {
 		tags = append(tags, "zeroend:yes")
+	}
+	if bo.SharedBranch {
+		tags = append(tags, "sharedbranch:yes")
 	}
 	if compilePanic {
 		tags = append(tags, "compile:panic")
